@@ -370,6 +370,29 @@ func TestC18_Options(t *testing.T) {
 		} else {
 			e = g.Expr(rapid.IntRange(1, 3).Draw(t, "depth"))
 		}
+		if aliasHead > 0 && rapid.IntRange(0, 3).Draw(t, "bothLists") > 0 {
+			// one expression that looks at both lists sharing storage and tells them apart
+			lit := []string{"a", "b", "c", "d"}[rapid.IntRange(0, 3).Draw(t, "aliasLit")]
+			ops := []bx.Op{bx.OpIn, bx.OpNotIn, bx.OpEmpty, bx.OpNotEmpty}
+			m1 := &bx.Match{Sel: bx.Sel{Parts: []string{"all"}}, Op: ops[rapid.IntRange(0, 3).Draw(t, "opAll")], Lit: lit}
+			m2 := &bx.Match{Sel: bx.Sel{Parts: []string{"head"}}, Op: ops[rapid.IntRange(0, 3).Draw(t, "opHead")], Lit: lit}
+			var both bx.Expr
+			switch rapid.IntRange(0, 3).Draw(t, "combine") {
+			case 0:
+				both = &bx.And{L: m1, R: m2}
+			case 1:
+				both = &bx.Or{L: m2, R: m1}
+			case 2:
+				both = &bx.And{L: m1, R: &bx.Quant{All: rapid.Bool().Draw(t, "qall"), Sel: bx.Sel{Parts: []string{"head"}}, Mode: bx.BindValue, Value: "h", Body: &bx.Match{Sel: bx.Sel{Parts: []string{"h"}}, Op: bx.OpNe, Lit: lit}}}
+			default:
+				both = &bx.And{L: &bx.Not{X: m2}, R: &bx.Quant{Sel: bx.Sel{Parts: []string{"all"}}, Mode: bx.BindBoth, Index: "i", Value: "x", Body: &bx.Match{Sel: bx.Sel{Parts: []string{"x"}}, Op: bx.OpEq, Lit: lit}}}
+			}
+			if rapid.Bool().Draw(t, "withRest") {
+				e = &bx.Or{L: both, R: e}
+			} else {
+				e = both
+			}
+		}
 		rend := bx.NewRenderer(chooser(t))
 		rend.MaxParen = 1
 		text, _ := rend.Render(e)
